@@ -5,6 +5,7 @@ maps) with the abstract program the text was rendered from, over many renderings
 comment lines, trailing comments, trailing commas, quote style, LF/CRLF); single-edit corruptions must raise SyntaxError.
 Failures are classified by (leaf value class, deviation) after isolating the culprit value in a canonical one-argument program.
 """
+import os
 import random
 
 from mpv import syntax
@@ -14,7 +15,7 @@ LEVEL = "exploration"
 RULE = ("random abstract programs (1-8 commands, 0-6 arguments; ints, decimals in every spelling, quoted strings with delimiters / "
         "quotes / escapes / non-ASCII, unquoted words, sentences, paths, URLs, lists nested <=3, tuples) x random renderings; plus "
         "single-token corruptions; distinct by (multiset of leaf value classes, layout features used, eol)")
-REQUIRED_COUNTERS = ["parses_compared", "corruptions_checked", "leaf_values_compared", "parser_reuse_cases", "files_loaded_through_the_program"]
+REQUIRED_COUNTERS = ["files_run_through_the_tool", "non_ascii_twin_files", "parses_compared", "corruptions_checked", "leaf_values_compared", "parser_reuse_cases", "files_loaded_through_the_program"]
 ASSUMPTIONS = ["expected content of quoted strings = text after unescaping \\\\ \\\" \\' \\n \\t (as tests/test_parser.py fixes)",
                "expected unquoted text = the written words joined by their single blanks, trimmed",
                "don't-care: duplicate tuple keys, comments/newlines inside unquoted strings, bare True/False words, other backslash escapes"]
@@ -55,6 +56,8 @@ def cases(ctx):
             rng.shuffle(args)
             cmds.append({"result": None, "command": "READ", "args": args, "trail": False, "_name": nm})
         yield {"kind": "viaprogram", "prog": {"commands": cmds}, "rseed": rng.randrange(10 ** 9), "rawnl": False, "style": rng.choice(["wild", "canon"]), "v2": True}
+    for i in range(ctx.n(40, 2000)):
+        yield {"kind": "viatool", "rseed": rng.randrange(10 ** 9)}
     for i in range(ctx.n(1200, 80000)):
         # corruption of well-behaved programs (quoted strings / numbers / identifier words only, so that the base text parses)
         prog = syntax.gen_program(rng, max_cmds=3, max_args=3, ustr_classes=["word"], rich=False)
@@ -130,6 +133,13 @@ def run_viaprogram(ctx, case):
     if [n for n, _ in got] != [c["result"] for c in prog["commands"]]:
         ctx.fail("via-program:commands-differ", {"got": [n for n, _ in got], "want": [c["result"] for c in prog["commands"]], "text": text[:600]})
         return
+    if not case.get("_second") and any(ord(ch) >= 0xA1 for ch in text):
+        # a second, different file of the same length and layout, differing from this one in non-ASCII characters only, loaded
+        # right after it: it delivers its own values
+        twin = _flip_non_ascii(prog)
+        if syntax.render(twin, random.Random(case["rseed"]), case["style"], raw_newline_strings=case["rawnl"]) != text:
+            ctx.count("non_ascii_twin_files")
+            run_viaprogram(ctx, dict(case, prog=twin, _second=True))
     for c, (name, cmd) in zip(prog["commands"], got):
         ctx.count("leaf_values_compared", len(c["args"]))
         if type(cmd).__name__ != c["command"] or type(cmd).__module__ != "usercmds":
@@ -143,6 +153,62 @@ def run_viaprogram(ctx, case):
             if not syntax.same_value(plain(arg.value), want):
                 ctx.fail("via-program:value-differs:%s" % syntax.value_feature(a["value"]), {"argument": a["name"], "got": repr(plain(arg.value))[:200], "want": repr(want)[:200], "text": text[:600]})
                 return
+
+
+TOOL_VALUES = ["Elev\t(m)", "a\tb", "two  blanks", "tab\tand  blanks\t", "\tleading tab", "x\t\ty", "plain", "trailing tab\t", "1\t2"]
+
+
+def run_viatool(ctx, case):
+    """A command file whose values contain tabs and runs of blanks, run through the command-line tool: the command receives
+    what the file says (quoted strings verbatim; unquoted multi-word strings as written)."""
+    import json as _json
+    from click.testing import CliRunner
+    from mpilot.cli.mpilot import main
+    rng = random.Random(case["rseed"])
+    d = ctx.scratch()
+    out = os.path.join(d, "dump.json")
+    vals = [rng.choice(TOOL_VALUES) for _ in range(3)]
+    q = rng.choice(['"', "'"])
+    unq = rng.choice(["Mean\tSlope", "a b", "x\t\ty z", "one"])
+    indent = rng.choice(["    ", "\t", "  \t"])
+    text = "D = Dump(\n%sOutFileName = %s%s%s,\n%sNewFieldName = %s%s%s,\n%sAnything = [%s%s%s, %s%s%s, %s]\n)\n" % (indent, q, out, q, indent, q, vals[0], q, indent, q, vals[1], q, q, vals[2], q, unq)
+    path = os.path.join(d, "model.mpt")
+    with open(path, "w", encoding="utf-8", newline="") as f:
+        f.write(text)
+    try:
+        res = CliRunner(mix_stderr=False).invoke(main, ["eems-csv", path, "-l", "usercmds"])
+    except TypeError:
+        res = CliRunner().invoke(main, ["eems-csv", path, "-l", "usercmds"])
+    ctx.count("files_run_through_the_tool")
+    ctx.feature(("viatool", tuple(sorted(set("tab" if "\t" in v else "blanks" if "  " in v else "plain" for v in vals + [unq])))))
+    if res.exit_code != 0 or not os.path.exists(out):
+        ctx.fail("via-tool:well-formed-file-fails", {"text": text, "exit": res.exit_code, "exception": repr(res.exception)[:200]})
+        return
+    got = _json.load(open(out, encoding="utf-8"))
+    want = {"NewFieldName": vals[0], "Anything": [vals[1], vals[2], unq]}
+    ctx.count("leaf_values_compared", 4)
+    if got != want:
+        ctx.fail("via-tool:value-differs:%s" % ("tab-in-a-value" if any("\t" in v for v in vals + [unq]) else "blanks-in-a-value"), {"got": repr(got)[:300], "want": repr(want)[:300], "text": text})
+
+
+def _flip_non_ascii(v):
+    """The AST value with every non-ASCII character of its quoted strings replaced by its neighbour (code point with the lowest bit
+    flipped): a different text of the same length that is the same once non-ASCII characters are dropped."""
+    import copy
+    v = copy.deepcopy(v)
+
+    def walk(x):
+        if isinstance(x, dict):
+            if x.get("t") == "qstr" and isinstance(x.get("v"), str):
+                x["v"] = "".join(chr(ord(c) ^ 1) if ord(c) >= 0xA1 and not (0xD800 <= (ord(c) ^ 1) <= 0xDFFF) else c for c in x["v"])
+            for k_, y in x.items():
+                if k_ != "v" or not isinstance(y, str):
+                    walk(y)
+        elif isinstance(x, list):
+            for y in x:
+                walk(y)
+    walk(v)
+    return v
 
 
 def _clean(x):
@@ -251,6 +317,8 @@ def _count_leaves(prog):
 def run_case(ctx, case):
     if case["kind"] == "viaprogram":
         return run_viaprogram(ctx, case)
+    if case["kind"] == "viatool":
+        return run_viatool(ctx, case)
     text = case["text"]
     if case["kind"] == "corrupt":
         ctx.count("corruptions_checked")
